@@ -555,6 +555,17 @@ func http2Valid(r Rand) []byte {
 			}
 		}
 		block = append(h2Headers(rest), 0xBE)
+		if len(authority)%3 == 0 {
+			// wave 13: instead, a decodable block that repeats one large field by index: a ~3.8 KiB
+			// cookie as a literal (it enters the dynamic table) followed by 4000 one-byte references
+			// to it - 8 KiB of input that decodes to 4001 fields of 3.8 KiB each
+			bomb := append([][2]string(nil), fields...)
+			ck := [2]string{"cookie", strings.Repeat(authority+";", 3800/(len(authority)+1))}
+			for i := 0; i < 4001; i++ {
+				bomb = append(bomb, ck)
+			}
+			block = h2Headers(bomb)
+		}
 	}
 	hf := h2Frame{typ: http2.FrameHeaders, flags: flags, stream: 1, payload: block}
 	if oneIn(r, 4, "h2.hprio") { // HEADERS carrying priority information
